@@ -16,7 +16,7 @@ pub const L_POLL: u64 = 4096;
 pub const L_AFTER: u64 = 256;
 pub const HARD: u64 = 2_000_000;
 
-pub const RULE: &str = "valid positions: the C05 mixture, the general mixture (full middlegames) and explosive shapes (rows of pawns one step from promotion on both sides, several queens, long checking sequences), depth 1..5 (or 64 as with a clock-only go), x expiry point k (node-count deadline through the SearchTimer hook): k log-uniform in 1..300k (thorough 3M), and ALL k in 1..T-1 for small searches. Oracle on instrumentation counters after find_best_move returns: first poll that sees the expired budget comes <= 4096 nodes after expiry; <= 256 further nodes are expanded after that observation; the search returns at all (hard cap k+2M nodes turns 'never stops' into a caught panic). Non-trivial = the deadline fell inside the search (a poll returned true before the search would have finished); distinct by (FEN, depth, k).";
+pub const RULE: &str = "valid positions: the C05 mixture, the general mixture (full middlegames) and explosive shapes (rows of pawns one step from promotion on both sides, several queens, long checking sequences), depth 1..5 (or 64 as with a clock-only go), x expiry point k (node-count deadline through the SearchTimer hook): k log-uniform in 1..300k (thorough 3M), and ALL k in 1..T-1 for small searches. Oracle on instrumentation counters after find_best_move returns: first poll that sees the expired budget comes <= 4096 nodes after expiry; <= 256 further nodes are expanded after that observation; the search returns at all (hard cap k+2M nodes turns 'never stops' into a caught panic). Non-trivial = the deadline fell inside the search (a poll returned true before the search would have finished); distinct by (FEN, depth, k). Black-box layer (real binary, real clock): go movetime T / a clock with T left / depth 64 movetime T, T in 0..300 ms, on explosive, middlegame and game positions, optionally after an earlier search in the same process; CPU time consumed between go and bestmove <= T + 300 ms (non-trivial = the last completed iteration is below depth 64, i.e. the clock ended the search).";
 
 thread_local! {
     static KMAX: Cell<u64> = Cell::new(300_000);
@@ -113,9 +113,127 @@ fn part_enumerated(bytes: &[u8], stats: &mut Stats) -> Verdict {
     Ok(())
 }
 
+/// Allowance (CPU milliseconds) for work done after the budget of a go has been used up.
+/// The process is single-threaded, so its CPU time never exceeds the wall-clock time since the
+/// go was sent: CPU time above budget + allowance is work done after the deadline, however the
+/// machine is loaded.  (The verdict never depends on wall-clock time.)
+pub const CPU_ALLOW_MS: u64 = 300;
+
+fn ticks_ms(t: u64) -> u64 {
+    let hz = unsafe { libc::sysconf(libc::_SC_CLK_TCK) }.max(1) as u64;
+    t * 1000 / hz
+}
+
+/// Black-box layer: the real binary, a real clock.  `go movetime T` (or a clock whose whole
+/// remaining time is T) on explosive / middlegame / game positions, possibly after earlier
+/// searches in the same process; the CPU time the process consumes between the go and its
+/// bestmove must stay below T + CPU_ALLOW_MS.
+fn part_blackbox(bytes: &[u8], stats: &mut Stats) -> Verdict {
+    use crate::blackbox::{Proc, Wait};
+    use std::time::{Duration, Instant};
+    let mut s = Src::new(bytes);
+    let (p, kind) = match s.weighted(&[50, 25, 25]) {
+        0 => (gen::g_motif_n(&mut s, 8), "explosive"),
+        1 => gen::g_mix(&mut s),
+        _ => (gen::g_play(&mut s), "game"),
+    };
+    if p.legal_moves().is_empty() {
+        stats.exclude("terminal root");
+        return Ok(());
+    }
+    let fen = p.fen(0, 1);
+    let t_ms = *s.pick(&[0u64, 1, 2, 5, 10, 20, 40, 80, 150, 300]);
+    let white = p.stm == refchess::Color::W;
+    let go = match s.below(4) {
+        0 | 1 => format!("go movetime {}", t_ms),
+        2 => {
+            // the mover's whole clock is T: whatever the allocation, it may not exceed it
+            let other = *s.pick(&[0u64, 1, 1000, 60_000, 3_600_000]);
+            let (w, b) = if white { (t_ms, other) } else { (other, t_ms) };
+            format!("go wtime {} btime {} winc 0 binc 0", w, b)
+        }
+        _ => format!("go depth 64 movetime {}", t_ms),
+    };
+    let warm = s.chance(30);
+    let mut pr = match Proc::spawn() {
+        Ok(p) => p,
+        Err(e) => return Err(Failure::new("harness-engine-missing", json!({"error": e}))),
+    };
+    let mut script = Vec::new();
+    if warm {
+        // an earlier, short search of the same position (fills the table)
+        script.push(format!("position fen {}", fen));
+        script.push("go movetime 5".to_string());
+    }
+    script.push(format!("position fen {}", fen));
+    for l in &script {
+        pr.send(l);
+    }
+    pr.send("isready");
+    if pr.read_until("readyok", Duration::from_secs(60)).is_err() {
+        // the warm-up go itself did not come back: judged by the main measurement of another case
+        return Err(Failure::new("harness-no-readyok", json!({"fen": fen, "script": script})));
+    }
+    let c0 = pr.cpu_ticks().unwrap_or(0);
+    let t0 = Instant::now();
+    pr.send(&go);
+    stats.eval();
+    let mut last_depth: Option<u64> = None;
+    let mut answered = false;
+    let wall_watchdog = Duration::from_secs(120);
+    loop {
+        match pr.next_line(Duration::from_millis(20)) {
+            Wait::Line(l) => {
+                if l.starts_with("bestmove") {
+                    answered = true;
+                } else if l.starts_with("info ") {
+                    let t: Vec<&str> = l.split_whitespace().collect();
+                    if let Some(i) = t.iter().position(|x| *x == "depth") {
+                        last_depth = t.get(i + 1).and_then(|x| x.parse().ok());
+                    }
+                }
+            }
+            Wait::Eof => break,
+            Wait::Timeout => {}
+        }
+        let used = ticks_ms(pr.cpu_ticks().unwrap_or(c0).saturating_sub(c0));
+        if used > t_ms + CPU_ALLOW_MS {
+            pr.kill();
+            return Err(Failure::new(
+                "cpu-work-after-deadline",
+                json!({"fen": fen, "go": go, "budget_ms": t_ms, "cpu_ms_used_since_go": used, "allowed_ms": t_ms + CPU_ALLOW_MS, "answered": answered, "earlier_search_in_process": warm, "gen": kind}),
+            ));
+        }
+        if answered {
+            break;
+        }
+        if t0.elapsed() > wall_watchdog {
+            pr.kill();
+            return Err(Failure::new("harness-go-watchdog", json!({"fen": fen, "go": go, "cpu_ms_used_since_go": used})));
+        }
+    }
+    if !answered {
+        return Err(Failure::new("no-answer-process-ended", json!({"fen": fen, "go": go})));
+    }
+    let used = ticks_ms(pr.cpu_ticks().unwrap_or(c0).saturating_sub(c0));
+    stats.maximum("max_cpu_ms_over_budget", used as i64 - t_ms as i64);
+    pr.send("quit");
+    stats.class(&format!("blackbox_{}", kind));
+    if last_depth.map_or(true, |d| d < 64) {
+        // the search was ended by the clock, not by its depth limit
+        stats.class("blackbox_deadline_inside_search");
+        stats.nontrivial(&(p.fen4(), go.clone(), warm));
+        stats.sample(|| json!({"fen": fen, "go": go, "budget_ms": t_ms, "cpu_ms_used_since_go": used, "last_completed_depth": last_depth, "earlier_search_in_process": warm, "gen": kind}));
+    } else {
+        stats.class("blackbox_finished_before_deadline");
+    }
+    Ok(())
+}
+
 pub fn run(tier: Tier, seed: u64, known: &Known) -> PropRun {
     let mut run = PropRun::new("fault_enumeration", RULE);
     run.assumptions = vec![
+        "black-box layer: CPU time of the single-threaded engine process between go and bestmove is a lower bound of the wall-clock time, so CPU time above budget + 300 ms is work after the deadline whatever the machine load; wall-clock time is never a verdict".into(),
         "deadline expressed in nodes through the SearchTimer hook; 'a small constant of time' follows from <= 256 nodes after the observed expiry only because the per-node cost is bounded (argument, not measured)".into(),
         "polling granularity up to 4096 nodes is deliberately allowed".into(),
     ];
@@ -134,6 +252,18 @@ pub fn run(tier: Tier, seed: u64, known: &Known) -> PropRun {
         part_sampled(b, st)
     });
     run.stats.merge(st);
+    if fl.is_some() {
+        run.failure = fl;
+        return run;
+    }
+    // the real binary under a real clock, judged on CPU time (never on wall-clock time)
+    if crate::blackbox::engine_path().is_none() {
+        run.inconclusive = Some("engine binary not built".into());
+        return run;
+    }
+    let part = Part { name: "blackbox", cases: tier.pick(320, 6_000), min_len: 24, max_len: 400, max_shrink: 40, threads: threads() };
+    let (st, fl) = run_part(&part, seed, known, part_blackbox);
+    run.stats.merge(st);
     run.failure = fl;
     // informational wall-clock figures from the real binary (never a verdict)
     if let Some(info) = crate::blackbox::movetime_timings() {
@@ -146,6 +276,7 @@ pub fn replay(part: &str, bytes: &[u8], _case: &Value, stats: &mut Stats) -> Ver
     KMAX.with(|c| c.set(3_000_000));
     match part {
         "enumerated" => part_enumerated(bytes, stats),
+        "blackbox" => part_blackbox(bytes, stats),
         _ => part_sampled(bytes, stats),
     }
 }
